@@ -577,36 +577,6 @@ func (p *Pool) metaOverrideMismatch() bool {
 	return false
 }
 
-// Envelopes of the main streams (each excluded class is a known finding with its own witness):
-//   tier A: expr.Project re-projects a memoised attribute through the aliasing of its copies
-//           (project-reprojects-memoised-attribute): needs a cycle through a container AND an
-//           attribute whose type-level view is overridden with another view;
-//   tier B: additionally no result type reaches itself through a container
-//           (self-reaching-result-type-loses-nested-attributes), and no cycle at all together
-//           with an overridden type-level view (the generators project copies).
-func (p *Pool) insideTierA() bool { return !(p.containerCycle() && p.metaOverrideMismatch()) }
-
-func (p *Pool) insideTierB() bool {
-	if !p.insideTierA() {
-		return false
-	}
-	// the generators project COPIES of the result types (DupAtt of the method result), whose
-	// cycles alias differently: there any cycle is enough for the re-projection finding
-	if p.metaOverrideMismatch() {
-		for _, t := range p.Types {
-			if p.reaches(t.Name, t.Name, map[string]bool{}) {
-				return false
-			}
-		}
-	}
-	for _, t := range p.Types {
-		if !t.Plain && p.selfReachesThroughContainer(t.Name) {
-			return false
-		}
-	}
-	return true
-}
-
 // hasContainers: some attribute is an array / map of result types or a plain user type.
 func (p *Pool) hasContainers() bool {
 	for _, t := range p.Types {
@@ -707,10 +677,10 @@ func corpusPools() []*Pool {
 			Views: []PView{{Name: "default", Attrs: []PEntry{e("i1"), e("i2")}}, {Name: "tiny", Attrs: []PEntry{e("i1")}}}},
 		{Name: "Outer", Attrs: []PAttr{{Name: "a", Kind: "str", Req: true}, {Name: "c", Kind: "mapres", Ref: "Inner"}, {Name: "c2", Kind: "mapres", Ref: "Inner"}},
 			Views: []PView{{Name: "default", Attrs: []PEntry{e("a"), e("c"), e("c2")}}, {Name: "tiny", Attrs: []PEntry{e("a"), e("c", "tiny"), e("c2")}}}}}})
-	// witness of the known finding project-reprojects-memoised-attribute: the memoised attribute
-	// of f03 (type-level view "mid", overridden with "default") becomes the element of g11; the
-	// copy of U1 that holds it is reached again through R2 -> U0 -> U1 and re-projected under "mid"
-	ps = append(ps, &Pool{Tag: "corpus:witness-reprojected-memo", Witness: "project-reprojects-memoised-attribute", Types: []*PType{
+	// regression of the repaired re-projection defect: the memoised attribute of f03 (type-level
+	// view "mid", overridden with "default") becomes the element of g11; the copy of U1 that
+	// holds it is reached again through R2 -> U0 -> U1 and used to be re-projected under "mid"
+	ps = append(ps, &Pool{Tag: "corpus:reprojected-memo", Types: []*PType{
 		{Name: "R0", Attrs: []PAttr{{Name: "f03", Kind: "res", Ref: "R1", Meta: "mid"}}, Views: []PView{{Name: "default", Attrs: []PEntry{e("f03", "default")}}}},
 		{Name: "R1", Attrs: []PAttr{{Name: "f11", Kind: "str"}}, Views: []PView{{Name: "default", Attrs: []PEntry{e("f11")}}, {Name: "mid", Attrs: []PEntry{e("f11")}}}},
 		{Name: "R2", Attrs: []PAttr{{Name: "f22", Kind: "user", Ref: "U0"}}, Views: []PView{{Name: "default", Attrs: []PEntry{e("f22")}}, {Name: "ext", Attrs: []PEntry{e("f22")}}}},
